@@ -549,46 +549,45 @@ func generateGhost(p *packages.Package, funcs map[string]*ssa.Function, cs *Cont
 	}
 	var hdr strings.Builder
 	hdr.WriteString("// Code generated by govc from //@ contract comments. DO NOT EDIT.\n// It is passed to the type checker as an overlay and is never written into the repository.\n\n//go:build verif\n\npackage " + p.Types.Name() + "\n\n")
-	// imports needed by spec code: scan for pkg.Selector usage of the package's imports
-	all := body.String() + strings.Join(cs.SpecCode, "\n")
+	// imports: parse the generated text once without imports and collect the package
+	// qualifiers that are really used (pkg.Sel with pkg unresolved).
+	candidates := map[string]string{} // name -> path
 	for _, imp := range p.Types.Imports() {
-		if strings.Contains(all, imp.Name()+".") {
-			tp.imports[imp.Path()] = imp.Name()
-		}
+		candidates[imp.Name()] = imp.Path()
 	}
-	var paths []string
-	for ip := range tp.imports {
-		paths = append(paths, ip)
+	for ip, n := range tp.imports {
+		candidates[n] = ip
 	}
-	sort.Strings(paths)
-	if len(paths) > 0 {
+	rest := ghostPrelude + "\n// ---- spec code from contract files ----\n\n" + strings.Join(cs.SpecCode, "\n\n") + "\n\n// ---- clause functions ----\n\n" + body.String()
+	used := map[string]bool{}
+	if f, err := parser.ParseFile(token.NewFileSet(), "ghost.go", "package x\n"+rest, 0); err == nil {
+		ast.Inspect(f, func(n ast.Node) bool {
+			if se, ok := n.(*ast.SelectorExpr); ok {
+				if id, ok := se.X.(*ast.Ident); ok && id.Obj == nil {
+					if _, isPkg := candidates[id.Name]; isPkg {
+						used[id.Name] = true
+					}
+				}
+			}
+			return true
+		})
+	} else {
+		undec = append(undec, fmt.Sprintf("generated ghost file does not parse: %v", err))
+	}
+	var names2 []string
+	for n := range used {
+		names2 = append(names2, n)
+	}
+	sort.Strings(names2)
+	if len(names2) > 0 {
 		hdr.WriteString("import (\n")
-		for _, ip := range paths {
-			fmt.Fprintf(&hdr, "\t%s %q\n", tp.imports[ip], ip)
+		for _, n := range names2 {
+			fmt.Fprintf(&hdr, "\t%s %q\n", n, candidates[n])
 		}
 		hdr.WriteString(")\n\n")
-		for _, ip := range paths {
-			_ = ip
-		}
 	}
-	hdr.WriteString(ghostPrelude)
-	hdr.WriteString("\n// ---- spec code from contract files ----\n\n")
-	for _, code := range cs.SpecCode {
-		hdr.WriteString(code)
-		hdr.WriteString("\n\n")
-	}
-	hdr.WriteString("// ---- clause functions ----\n\n")
-	hdr.WriteString(body.String())
-	// make sure every import is used
-	src := hdr.String()
-	for _, ip := range paths {
-		n := tp.imports[ip]
-		if !strings.Contains(strings.SplitN(src, ghostPreludeMarker, 2)[len(strings.SplitN(src, ghostPreludeMarker, 2))-1], n+".") {
-			// unused: drop by renaming to blank
-			src = strings.Replace(src, fmt.Sprintf("\t%s %q\n", n, ip), fmt.Sprintf("\t_ %q\n", ip), 1)
-		}
-	}
-	return src, undec
+	hdr.WriteString(rest)
+	return hdr.String(), undec
 }
 
 func importNameOf(p *packages.Package, id string) (string, bool) {
